@@ -11,7 +11,7 @@
 enum {
   O_NEW, O_DEL, O_PUSH, O_POP, O_PUSH_AT, O_POP_AT, O_SET, O_GET, O_REM, O_MEM,
   O_CONCAT, O_RESIZE, O_SORT, O_ASSIGN, O_COPY, O_TWIN, O_SWAP, O_CHECK,
-  O_SASSIGN, O_SCONCAT, O_SREM, O_SMEM, O_SPRINT, O_BAD, O_BURST, O_VIEW, O_NOPS
+  O_SASSIGN, O_SCONCAT, O_SREM, O_SMEM, O_SPRINT, O_BAD, O_BURST, O_VIEW, O_SWAPV, O_NOPS
 };
 static const OpInfo OPS[O_NOPS] = {
   [O_NEW]    = { "new", 5 },      /* kind ktype vtype managed ninit */
@@ -39,6 +39,7 @@ static const OpInfo OPS[O_NOPS] = {
   [O_SPRINT] = { "s_print", 4 },  /* c pos fmt x */
   [O_BAD]    = { "bad", 3 },      /* c kind x */
   [O_BURST]  = { "burst", 1 },    /* n */
+  [O_SWAPV]  = { "swapv", 3 },    /* type a b : swap / copy / assign of two plain values */
   [O_VIEW]   = { "view", 4 },     /* c kind a b : iterate a view of a sequence (slice / zip / enumerate / filter / map / range) */
 };
 
@@ -200,6 +201,15 @@ static void check_handed_out(Cont* c, var p, int et, const char* how) {
   if (t isnt ETYPE(et)) {
     char cls[96]; snprintf(cls, sizeof cls, "C19:wrong-type:%s:%s", KNAME[c->kind], how);
     viol("C19", cls, "object from %s via %s has type %s, expected %s", KNAME[c->kind], how, c_str(t), ENAME[et]);
+  }
+  if (g_focus == 19 || g_focus == 0) {
+    /* size(type) bytes of the object must lie inside one live block of its container's storage */
+    void* bs; size_t bsz; int bst;
+    size_t need = size(ETYPE(et));
+    if (!arena_find(p, &bs, &bsz, &bst) || bst != BLK_LIVE || (char*)p + need > (char*)bs + bsz) {
+      char cls[96]; snprintf(cls, sizeof cls, "C19:size-not-usable:%s:%s", KNAME[c->kind], how);
+      viol("C19", cls, "object of type %s from %s via %s does not have size(type)=%zu usable bytes inside its block (after %s)", ENAME[et], KNAME[c->kind], how, need, g_lastop);
+    }
   }
 #if CELLO_ALLOC_CHECK == 1
   if (header(p)->alloc isnt (var)AllocData) {
@@ -1194,6 +1204,39 @@ static void do_sprint(const Op* o) {
   check_cont(c, 1);
 }
 
+/* ------------------------------------------------ plain values (C10) */
+struct P12 { int32_t a, b, c; };
+struct P3 { unsigned char a, b, c; };
+struct P20 { int64_t a, b; int32_t c; };
+static var P12 = Cello(P12);
+static var P3 = Cello(P3);
+static var P20 = Cello(P20);
+
+static void do_swapv(const Op* o) {
+  progress(g_opidx, "C10", "swapv");
+  int t = (int)(((o->a[0] % 6) + 6) % 6);
+  var T = t == 0 ? P12 : t == 1 ? P3 : t == 2 ? P20 : t == 3 ? Int : t == 4 ? Float : String;
+  size_t n = t == 0 ? sizeof(struct P12) : t == 1 ? sizeof(struct P3) : t == 2 ? sizeof(struct P20) : 8;
+  var x, y;
+  if (t <= 2) {
+    x = new_raw_with(T, tuple()); y = new_raw_with(T, tuple());
+    unsigned char* px = x; unsigned char* py = y;
+    for (size_t i = 0; i < n; i++) { px[i] = (unsigned char)(o->a[1] * 31 + (int64_t)i * 7 + 1); py[i] = (unsigned char)(o->a[2] * 17 + (int64_t)i * 13 + 2); }
+  } else if (t == 3) { x = new_raw(Int, $I(o->a[1])); y = new_raw(Int, $I(o->a[2] + 1)); }
+  else if (t == 4) { x = new_raw(Float, $F(fltval(normv(ET_FLT, o->a[1])))); y = new_raw(Float, $F(fltval(normv(ET_FLT, o->a[2])) + 0.5)); }
+  else { x = new_raw(String, $S((char*)strval(o->a[1]))); y = new_raw(String, $S((char*)strval(o->a[2] + 1))); }
+  var x0 = copy(x), y0 = copy(y);        /* copies (managed, kept on this frame) are the reference values */
+  char cls[96];
+  if (!eq(x0, x) || hash(x0) != hash(x)) { snprintf(cls, sizeof cls, "C10:copy-not-equal:%s", c_str(T)); viol("C10", cls, "copy of a %s value is not eq / hashes differently", c_str(T)); }
+  swap(x, y);
+  if (!eq(x, y0) || !eq(y, x0) || hash(x) != hash(y0) || hash(y) != hash(x0)) {
+    snprintf(cls, sizeof cls, "C10:swap-not-exchanged:%s", c_str(T)); viol("C10", cls, "swap of two %s values (%zu bytes) did not exchange them", c_str(T), n); }
+  assign(x, y);
+  if (!eq(x, y) || hash(x) != hash(y)) { snprintf(cls, sizeof cls, "C10:assign-not-equal:%s", c_str(T)); viol("C10", cls, "assign of a %s value does not give an equal value", c_str(T)); }
+  del_raw(x); del_raw(y);
+  stat_add("c10.value_swaps", 1);
+}
+
 /* ---------------------------------------------------------------- views */
 static var view_even(var x) { return (c_int(x) % 2 == 0) ? x : NULL; }   /* filter / map hand the element itself to the function */
 static struct Int g_map_out;
@@ -1308,9 +1351,21 @@ static void do_bad(const Op* o) {
       what = "range-get-out-of-range"; acc = X_IOOB;
       try { get(rg, $I(bi)); } catch (e) { ex = e; }
       if (len(rg) != (size_t)m) viol("C12", "C12:state-changed:range-get-out-of-range:Range", "a failed get changed the Range");
-    } else {
+    } else if (kind == 30) {
       what = "null-object"; acc = X_VALUE;
-      try { if (kind == 30) len(NULL); else push(NULL, $I(1)); } catch (e) { ex = e; }
+      try { if (x & 1) len(NULL); else push(NULL, $I(1)); } catch (e) { ex = e; }
+    } else {
+      /* a stack Tuple cannot be resized: every attempt must raise and leave it as it was */
+      var a0 = $I(10), a1 = $I(20), a2 = $I(30);
+      var t = tuple(a0, a1, a2);
+      int w = (int)(((x % 6) + 6) % 6);
+      static const char* wn[] = { "stack-tuple-pop_at", "stack-tuple-rem", "stack-tuple-push", "stack-tuple-pop", "stack-tuple-resize", "stack-tuple-push_at" };
+      what = wn[w]; acc = X_VALUE | X_RESOURCE;
+      try { switch (w) { case 0: pop_at(t, $I(x % 3 < 0 ? 0 : x % 3)); break; case 1: rem(t, $I(20)); break; case 2: push(t, a0); break;
+                         case 3: pop(t); break; case 4: resize(t, 1); break; default: push_at(t, a2, $I(1)); break; } } catch (e) { ex = e; }
+      if (len(t) != 3 || get(t, $I(0)) isnt a0 || get(t, $I(1)) isnt a1 || get(t, $I(2)) isnt a2) {
+        char cls[96]; snprintf(cls, sizeof cls, "C12:state-changed:%s", what); viol("C12", cls, "the refused call '%s' changed the stack Tuple", what);
+      }
     }
     g_lastop = what;
     stat_add("bad.injected", 1);
@@ -1383,8 +1438,11 @@ static void do_bad(const Op* o) {
     }
   } else {
     switch (kind % 6) {
-      case 0: if (g_avoid_kf & KF_PRINT_PARTIAL) return;
-              what = "print-too-few-args"; acc = X_FORMAT; try { print_to(obj, 0, "%i and %i", $I(x)); } catch (e) { ex = e; } break;
+      case 0: { if (g_avoid_kf & KF_PRINT_PARTIAL) return;
+              static const char* fm[] = { "%i and %i", "%i%%%i", "%%%i %i", "rate: %i%%%s", "%%%%%i%s", "%s", "a%%b%ic%i" };
+              int fi = (int)(((x % 7) + 7) % 7);
+              what = "print-too-few-args"; acc = X_FORMAT;
+              try { if (fi == 5) print_to(obj, 0, fm[fi]); else print_to(obj, 0, fm[fi], $I(x)); } catch (e) { ex = e; } break; }
       case 1: what = "concat-null"; acc = X_VALUE; try { concat(obj, NULL); } catch (e) { ex = e; } break;
       case 2: what = "concat-no-c_str"; acc = X_CLASS | X_VALUE | X_TYPE; try { concat(obj, $I(5)); } catch (e) { ex = e; } break;
       case 3: what = "unimplemented-class"; acc = X_CLASS; try { push(obj, $I(1)); } catch (e) { ex = e; } break;
@@ -1457,6 +1515,7 @@ static void exec_op(const Op* o) {
     case O_SPRINT: do_sprint(o); break;
     case O_BAD: do_bad(o); break;
     case O_VIEW: do_view(o); break;
+    case O_SWAPV: do_swapv(o); break;
     case O_BURST: progress(g_opidx, "C01", "burst"); burst((int)(((o->a[0] % 64) + 64) % 64) + 2); break;
     default: break;
   }
@@ -1593,6 +1652,7 @@ static void containers_generate(Plan* p, Rng* r) {
       continue; }
     if (d < (uint32_t)(focus == 10 ? 22 : 13)) { plan_add(p, O_TWIN, 0, fault, ca, rng_below(r, 4), 0, 0, 0, 0); continue; }
     if (d < (uint32_t)(focus == 10 ? 24 : 15)) { plan_add(p, O_CHECK, 0, fault, ca, 0, 0, 0, 0, 0); continue; }
+    if ((focus == 10 || focus == 0) && d < 30) { plan_add(p, O_SWAPV, 0, 0, rng_below(r, 6), (int64_t)rng_below(r, 1000), (int64_t)rng_below(r, 1000), 0, 0, 0); continue; }
     d = rng_below(r, 100);
     if (g->kind == K_STRING) {
       int64_t m = rng_below(r, 7), x = (int64_t)rng_below(r, 100000);
@@ -1676,7 +1736,7 @@ static void nontrivial_eval(void) {
                "bad.push_at-out-of-range", "bad.rem-absent", "bad.get-null-key", "bad.resize-tuple-grow", "bad.get-absent", "bad.set-wrong-key-type",
                "bad.set-wrong-value-type", "bad.get-wrong-key-type", "bad.mem-wrong-key-type", "bad.rem-wrong-key-type", "bad.resize-below-len",
                "bad.resize-tree-nonzero", "bad.set-null-value", "bad.unimplemented-class", "bad.index-not-int", "bad.concat-null", "bad.concat-no-c_str",
-               "bad.assign-null", "bad.print-too-few-args", "bad.push-wrong-type", "bad.range-get-out-of-range", "bad.null-object", NULL };
+               "bad.assign-null", "bad.print-too-few-args", "bad.push-wrong-type", "bad.range-get-out-of-range", "bad.null-object", "bad.stack-tuple-pop_at", "bad.stack-tuple-rem", "bad.stack-tuple-push", NULL };
                for (int i = 0; ks[i]; i++) kinds += stat_get(ks[i]) > 0;
                nt = kinds >= 5 && stat_get("seq.maxlen") + stat_get("table.max_slots") >= 2; break; }
     case 16: nt = stat_get("str.rem_middle") > 0 && stat_get("str.grow_after_shrink") > 0; break;
